@@ -87,6 +87,10 @@ def faults(rng, base_decls):
     for ty, goods, bad in (("float", "1.0", "1+0j"), ("int", "0, 2", "2+0j"), ("int", "3, 0, 1", "0j"), ("float", "0.5, 2.0", "2+0j"),
                            ("int", "2", "2.5 - 0.5 + 0j"), ("float", "0.0", "0j")):
         f.append(("loop-value", "%s:%s:equal-to-earlier" % (ty, bad), "for %s m_ in [%s, %s]\n    G(m_) | 0\n" % (ty, goods, bad)))
+    # an array given as ONE template parameter needs a declared shape to be split into elements
+    for ty in ("float", "int", "complex"):
+        f.append(("array-parameter-without-shape", ty, "%s array B_ =\n    {pp_}\n" % ty))
+        f.append(("array-parameter-without-shape", ty + ":used", "%s array B_ =\n    {pp_}\nG(B_) | 0\n" % ty))
     return f
 
 
